@@ -5,7 +5,7 @@
 From Coq Require Import List String QArith.
 From Coq Require Import Floats.PrimFloat.
 From PAFC01 Require Import ModelTree.
-From PAFC12 Require Import Gen Model Proofs Proofs2 Proofs3 Proofs4 Proofs5 Proofs6 Proofs7 Proofs8 Proofs9 Proofs10 Proofs11.
+From PAFC12 Require Import Gen Model Proofs Proofs2 Proofs3 Proofs4 Proofs5 Proofs6 Proofs7 Proofs8 Proofs9 Proofs10 Proofs11 Proofs12.
 Import ListNotations.
 
 (* STRUCTURE, every mode.  The new model has exactly the places (paths) of the old one, and the place that held
@@ -25,6 +25,45 @@ Theorem C12_order : forall (V : Type) (sigma : nat -> option nat) (n n' : node V
   (forall x y, In x (prior_ids V n) -> In y (prior_ids V n) -> (x < y)%nat -> (sd sigma x < sd sigma y)%nat) ->
   ordered_ids V n' = map (sd sigma) (ordered_ids V n) /\ prior_count V n' = prior_count V n /\ paths V n' = paths V n.
 Proof. exact rebuild_order. Qed.
+
+(* RESULTS ARE STATEFUL (Session.v): a samples summary caches its parameter paths and its instance; the child results
+   of combined / free-parameter analyses are copies made by `subsamples`.  From a summary whose path cache is empty or
+   that of its own model, every summary reached by reads and by making children (any order, any depth) is again so. *)
+From PAFC12 Require Import Session.
+Theorem C12_summary_cache_coherent : forall (V : Type) (bin : binop -> V -> V -> V) (un : unop -> V -> V) (resets : bool) (ops : list (op V))
+    (s s' : summary V),
+  coherent V s -> run V bin un resets ops s = Some s' -> coherent V s'.
+Proof. exact run_coherent. Qed.
+
+(* whatever was read from the parent before its child is made and from the child afterwards, the child answers with the
+   best-fit vector and the prior means of the child made first thing from the untouched parent: prior passing from a
+   child result does not depend on the history of the result objects *)
+Theorem C12_summary_history_irrelevant : forall (V : Type) (bin : binop -> V -> V -> V) (un : unop -> V -> V) (resets : bool) (s : summary V)
+    (before : list (op V)) (child : node V) (after : list (op V)) (c c0 : summary V),
+  coherent V s -> Forall (is_read V) before -> Forall (is_read V) after ->
+  run V bin un resets (before ++ OSub V child :: after) s = Some c -> subsamples V resets s child = Some c0 ->
+  sm_model V c = child /\ max_vector V c = max_vector V c0 /\ means_vector V c = means_vector V c0.
+Proof. exact history_irrelevant. Qed.
+
+(* the child's instance is the child model at the child's own vector (full, for the code since 4da3fbc: `subsamples`
+   resets `_instance`): whatever was done with the parent before - instance reads included - and read from the child
+   afterwards.  Before the repair the copy kept the parent's instance: legacy witness below. *)
+Theorem C12_child_instance_own : forall (V : Type) (bin : binop -> V -> V -> V) (un : unop -> V -> V) (s : summary V)
+    (before : list (op V)) (child : node V) (after : list (op V)) (c : summary V),
+  Forall (is_read V) after -> run V bin un true (before ++ OSub V child :: after) s = Some c ->
+  instance_value V bin un c = option_map (inst_from_vector V bin un child) (max_vector V c) /\ sm_model V c = child.
+Proof. exact (fun V bin un => child_instance_own V bin un true eq_refl). Qed.
+
+Theorem C12_child_instance_own_legacy_refuted :
+  exists (s : summary nat) (before : list (op nat)) (child : node nat) (after : list (op nat)) (c : summary nat),
+    coherent nat s /\ sm_inst nat s = None /\ Forall (is_read nat) before /\ Forall (is_read nat) after /\
+    run nat wit_bin wit_un false (before ++ OSub nat child :: after) s = Some c /\
+    instance_value nat wit_bin wit_un c <> option_map (inst_from_vector nat wit_bin wit_un child) (max_vector nat c).
+Proof. exact child_instance_legacy_refuted. Qed.
+Print Assumptions C12_summary_cache_coherent.
+Print Assumptions C12_summary_history_irrelevant.
+Print Assumptions C12_child_instance_own.
+Print Assumptions C12_child_instance_own_legacy_refuted.
 
 (* sharing: two places hold one prior afterwards iff they did before *)
 Theorem C12_sharing : forall (V : Type) (sigma : nat -> option nat) (n n' : node V),
@@ -130,7 +169,7 @@ Proof. exact unary_rebuild. Qed.
 (* ... and fixed to the best-fit instance it becomes the number op(value) *)
 Theorem C12_unary_fixed : forall (V : Type) (bin : binop -> V -> V -> V) (un : unop -> V -> V) (vals : nat -> option V)
     (o : unop) (nm : string) (c : node V) (a : V),
-  PAFC01.Proofs6.is_const V c = false -> inst V bin un vals c = IV a ->
+  PAFC01.Proofs8.is_const V c = false -> inst V bin un vals c = IV a ->
   fix_tree V bin un vals (NUn o nm c) = Some (NConst (un o a)).
 Proof. exact unary_fixed. Qed.
 
@@ -231,12 +270,30 @@ Theorem C12_relative_width_nonneg : forall r m : Q, 0 <= r ->
 Proof. exact relative_width_nonneg. Qed.
 
 (* binary64, on a grid of 17 non-negative widths x 34 values of either sign (0, subnormal, 2^-1022, ..., 2^60, 2^300, max,
-   infinity): the computed relative width is never negative.  (A universally quantified binary64 statement needs the
-   FloatAxioms specification axioms, which are outside the trusted base; beyond the grid this rests on the correspondence.) *)
+   infinity): the computed relative width is never negative -- by computation, no axiom.  The universally quantified
+   statement is C12_relative_width_float below (it depends on the FloatAxioms specification axioms). *)
 Theorem C12_relative_width_float_grid :
   forallb (fun r => forallb (fun m => negb (sigma_negative_F (pm_rel_width_F r m)) && negb (sigma_negative_F (wm_relative_F r m)))
                             fgrid) fgrid_nonneg = true.
 Proof. exact relative_width_float_grid. Qed.
+
+(* binary64, ALL floats (the universally quantified form of the grid statement above; from the specification axioms
+   FloatAxioms.ltb_spec / leb_spec / abs_spec / mul_spec of the Coq standard library, Common/Float64Order.v): with a factor
+   r >= 0 (so not NaN; -0.0 and +infinity allowed) the relative width r * |m| is never negative whatever m is -- any
+   sign, zero, infinite, NaN (0 * inf = NaN is "not negative": the code's test `sigma < 0` is false) *)
+Theorem C12_relative_width_float : forall r m : PrimFloat.float, PrimFloat.leb 0 r = true ->
+  sigma_negative_F (pm_rel_width_F r m) = false /\ sigma_negative_F (wm_relative_F r m) = false.
+Proof. exact relative_width_float. Qed.
+
+Theorem C12_absolute_width_float : forall a : PrimFloat.float, PrimFloat.leb 0 a = true ->
+  sigma_negative_F (pm_abs_width_F a) = false /\ sigma_negative_F (wm_absolute_F a) = false.
+Proof. exact absolute_width_float. Qed.
+
+(* hence the two width hypotheses of C12_total_means_conditions hold of the binary64 leaves the correspondence runs *)
+Theorem C12_widths_not_negative_float_leaves : forall x : PrimFloat.float, PrimFloat.leb 0 x = true ->
+  l_neg_sigma PrimFloat.float fleaves (l_abs_width PrimFloat.float fleaves x) = false /\
+  forall m, l_neg_sigma PrimFloat.float fleaves (l_rel_width PrimFloat.float fleaves x m) = false.
+Proof. exact fleaves_widths_not_negative. Qed.
 
 (* bounded: succeeds for every vector of any sign over exact numbers (full); the uniform prior is centred on the
    value with half-width b.  In binary64 the statement fails for |value| >= 2^53 b (refuted). *)
@@ -358,3 +415,5 @@ Print Assumptions C12_cls_ok_repaired.
 Print Assumptions C12_means_unary_over_prior_refuted.
 Print Assumptions C12_unary_rebuild.
 Print Assumptions C12_unary_fixed.
+Print Assumptions C12_relative_width_float.
+Print Assumptions C12_widths_not_negative_float_leaves.
